@@ -1041,6 +1041,8 @@ class Flow:
                         a0 = self._apply_returns(it, a0, [], {}, call)
                 else:
                     et = t0.elem()
+                    if t0.name in ("SortedDict", "dict") and FRESH_CONTAINER_CTORS[can] not in ("dict", "SortedDict"):
+                        a0 = set()        # a sequence / set built from a mapping holds its (immutable) keys; a mapping built from it shares the values
             self.store([s], "[]", self.read_all(a0, "[]"), call)
             return Ty(FRESH_CONTAINER_CTORS[can], (et,) if et else ()), {s}
         if can in ("copy.deepcopy",):
